@@ -383,7 +383,7 @@ class C08(Prop):
                 lines += ['check save-all', 'compose nt a t', 'check unchanged-all',
                           'check save-all', 'compose nu t a', 'check unchanged-all']
             # an embedding and its Vietoris-Rips complex
-            lines += ['emb e a 2']
+            lines += [rnd.choice(['emb e a 2', 'embp e a 2'])]
             pts = [l.split()[4] for l in lines if l.startswith('add a [ ]') and l.split()[4] != '-'][:4]
             for p in pts:
                 lines.append('pos e %s [ %s %s ]' % (p, float(rnd.randint(0, 3)).hex(), float(rnd.randint(0, 3)).hex()))
@@ -437,7 +437,7 @@ class C09(Prop):
             if len(pts) < 2:
                 continue
             mt = rnd.choice([None, None, 'wrap', 'half', 'manhattan'])
-            lines += ['embm e a 2 %s' % mt if mt else 'emb e a 2']
+            lines += ['embm e a 2 %s' % mt if mt else rnd.choice(['emb e a 2', 'embp e a 2'])]
             P = lambda: '[ %s %s ]' % (float(rnd.randint(0, 3)).hex(), float(rnd.randint(0, 3)).hex())
             for x in pts:
                 lines.append('pos e %s %s' % (x, P()))
@@ -557,8 +557,11 @@ class C12(Prop):
             # (thorough: 7 points only now and then -- the full simplex on 7 points has 127 simplices
             # and each of the up to 20 radii of a script builds its flag complex from scratch)
             dim = rnd.randint(1, 3); npts = rnd.randint(2, 6 if (tier == 'quick' or i % 10) else 7)
-            kind = i % 5
-            if kind == 4:      # tenths on a line: every eps a tie, sums and differences round
+            kind = i % 6
+            if kind == 5:      # far from the origin, close together (timestamps; planar points offset by 1e9): exact small distances
+                off = [rnd.choice([1.0e9, 1.7e9, -3.0e9, 2.0 ** 40]) for _ in range(dim)]
+                pts = [[o + rnd.randint(0, 4) + 0.25 * rnd.randint(0, 3) for o in off] for _ in range(npts)]
+            elif kind == 4:      # tenths on a line: every eps a tie, sums and differences round
                 dim = 1
                 pts = [[x / 10.0] for x in rnd.sample(range(0, 30), npts)]
             elif kind == 0:      # integer grid: exact distances, ties
@@ -573,7 +576,7 @@ class C12(Prop):
             metric = rnd.choice([None, None, None, 'manhattan', 'chebyshev', 'half', 'wrap'])
             names = rnd.sample([1, 2, 3, 4, 5, 6, 7, 'a', 'b', (1, 2)], npts)
             lines = ['new p'] + ['add p [ ] %s -' % tok(x) for x in names]
-            lines.append(('embm e p %d %s' % (dim, metric)) if metric else 'emb e p %d' % dim)
+            lines.append(('embm e p %d %s' % (dim, metric)) if metric else ('emb e p %d' if i % 2 else 'embp e p %d') % dim)
             for x, p in zip(names, pts):
                 lines.append('pos e %s [ %s ]' % (tok(x), ' '.join(c.hex() for c in p)))
             from harness.oracles3 import own_distance
@@ -606,15 +609,27 @@ class C12(Prop):
                     lines.append('pos e %s [ %s ]' % (tok(x), ' '.join(float(c).hex() for c in q)))
                 if rnd.random() < 0.4:
                     lines += ['add p [ ] sLATE -', 'pos e sLATE [ %s ]' % ' '.join(float(c).hex() for c in rnd.choice(pts))]
+                elif rnd.random() < 0.5:
+                    # a positioned point goes, a point nobody positioned comes: as many points as remembered positions
+                    lines += ['del p %s' % tok(rnd.choice(names)), 'add p [ ] sUNPLACED -']
                 for k, eps in enumerate(rnd.sample(eps_list, min(3, len(eps_list)))):
                     w = 'x%d' % k
                     lines += ['vr %s e %s ?' % (w, eps.hex()), 'snap ' + w, 'check c12 %s e %s' % (w, eps.hex())]
             scripts.append(lines)
         # an embedding whose positions are computed on demand by a subclass, asked for a complex before anyone read a position
         for k in range(6 if tier == 'quick' else 60):
-            r_, c_ = rnd.randint(2, 3), rnd.randint(1, 3)
-            h_, w_ = rnd.choice([1.0, 2.0, 3.0]), rnd.choice([1.0, 2.0, 4.0])
-            scripts.append(['check c12-lattice %d %d %s %s %s' % (r_, c_, h_.hex(), w_.hex(), rnd.choice([0.5, 1.0, 1.5, 2.5]).hex())])
+            while True:
+                r_, c_ = rnd.randint(2, 3), rnd.randint(1, 3)
+                h_, w_ = rnd.choice([1.0, 2.0, 3.0]), rnd.choice([1.0, 2.0, 4.0])
+                e_ = rnd.choice([0.5, 1.0, 1.5, 2.5])
+                # keep the cliques small: the library's sweep enumerates (k+1)-subsets of the (k-1)-simplices, which on
+                # a clique of 7+ points runs out of memory on the unchanged tree (a cost, not a wrong answer)
+                pos_ = [[(w_ / (2 * c_)) * (2 * j + (i % 2)), h_ - (h_ / r_) * i] for i in range(r_) for j in range(c_)]
+                adj_ = [[math.dist(a_, b_) <= e_ * 1.001 for b_ in pos_] for a_ in pos_]
+                big = any(all(adj_[x][y] for x in K for y in K) for K in itertools.combinations(range(len(pos_)), 6)) if len(pos_) >= 6 else False
+                if not big:
+                    break
+            scripts.append(['check c12-lattice %d %d %s %s %s' % (r_, c_, h_.hex(), w_.hex(), e_.hex())])
         return scripts, {'generator': 'the same embedding used again after points moved, were added or all positions cleared; integer-grid, collinear/coincident, decimal and random point sets in 1-3 dimensions, 2-7 points, eps below/at/above pairwise distances (incl. negative and beyond the diameter), Euclidean/Manhattan/Chebyshev'}
 
 # ================================================================ C15
@@ -977,7 +992,7 @@ class C20(Prop):
                 lines.append('add a [ %s %s ] sEDGE -' % (tok(names[0]), tok(names[1]))); hi.append('sEDGE')
             if len(names) >= 3:
                 lines.append('addb a [ %s %s %s ] sTRI -' % tuple(tok(x) for x in names[:3])); hi.append('sTRI')
-            lines += ['emb e a %d' % dim, 'check c20-begin e']
+            lines += [('embp e a %d' if rnd.random() < 0.4 else 'emb e a %d') % dim, 'check c20-begin e']
             allnames = [tok(x) for x in names] + hi + ['sMISSING']
             for j in range(rnd.randint(6, 16)):
                 r = rnd.random()
